@@ -132,6 +132,9 @@ class TocFetcher:
         logger.debug('[%d]: Start fetching...', self.port)
         # Register callback in this class for the port
         self.cf.add_port_callback(self.port, self._new_packet_cb)
+        # Abandon the fetch if the link goes down before it is finished,
+        # otherwise it would complete during the next connection attempt
+        self.cf.disconnected.add_callback(self._abort)
 
         # Request the TOC CRC
         self.state = GET_TOC_INFO
@@ -144,9 +147,21 @@ class TocFetcher:
             pk.data = (CMD_TOC_INFO,)
             self.cf.send_packet(pk, expected_reply=(CMD_TOC_INFO,))
 
+    def _abort(self, link_uri):
+        """The link was closed or lost while fetching"""
+        self.cf.remove_port_callback(self.port, self._new_packet_cb)
+        self._remove_abort_callback()
+
+    def _remove_abort_callback(self):
+        try:
+            self.cf.disconnected.remove_callback(self._abort)
+        except ValueError:
+            pass
+
     def _toc_fetch_finished(self):
         """Callback for when the TOC fetching is finished"""
         self.cf.remove_port_callback(self.port, self._new_packet_cb)
+        self._remove_abort_callback()
         logger.debug('[%d]: Done!', self.port)
         self.finished_callback()
 
